@@ -29,9 +29,20 @@ func c17Dec(w uint32) (inst Inst, err error, str string, pan string) {
 			}
 		}
 	}()
-	var b [4]byte
+	// goom's callers (GetFuncSize, GetInnerFunc, PrintInstf) hand Decode 16 bytes: the word is followed by 12 bytes derived
+	// from it (splitmix), so any dependence on len(src) or on the bytes after the word shows up against the reference and the
+	// model, which see the word alone.
+	var b [16]byte
 	binary.LittleEndian.PutUint32(b[:], w)
-	inst, err = Decode(b[:])
+	z := uint64(w)*0x9E3779B97F4A7C15 + 0xBF58476D1CE4E5B9
+	z = (z ^ (z >> 30)) * 0xBF58476D1CE4E5B9
+	binary.LittleEndian.PutUint64(b[4:], z^(z>>27))
+	binary.LittleEndian.PutUint32(b[12:], uint32(z>>13)^w)
+	n := 16
+	if w&3 == 1 { // a quarter of the words with exactly 4 bytes, the rest with 16
+		n = 4
+	}
+	inst, err = Decode(b[:n])
 	if err == nil {
 		str = inst.String()
 	}
@@ -165,6 +176,22 @@ func TestVerifC17(t *testing.T) {
 			out.Put(op.Idx, "%s", vh.Catch(func() string { return strconv.FormatBool(f(w)) }))
 			continue
 		}
+		if len(op.Toks) == 3 && op.Toks[0] == "c17.short" { // Decode on the first n < 4 bytes of the word
+			w, n := uint32(vh.U64(op.Toks[1])), int(vh.U64(op.Toks[2]))
+			out.Put(op.Idx, "%s", vh.Catch(func() string {
+				var b [4]byte
+				binary.LittleEndian.PutUint32(b[:], w)
+				_, err := Decode(b[:n])
+				if err == errShort {
+					return "err:short"
+				}
+				if err != nil {
+					return "err:" + vh.Class(err.Error())
+				}
+				return "decoded"
+			}))
+			continue
+		}
 		if len(op.Toks) < 2 || op.Toks[0] != "c17.dec" {
 			continue
 		}
@@ -245,9 +272,31 @@ func c17Allowed(w uint32) bool {
 	return m == 0xd5087000 || m == 0xd5088000
 }
 
+// c17Deposit scatters the low bits of k into the positions of the set bits of free (software PDEP)
+func c17Deposit(k uint64, free uint32) uint32 {
+	var w uint32
+	for b := uint(0); b < 32; b++ {
+		if free&(1<<b) != 0 {
+			if k&1 != 0 {
+				w |= 1 << b
+			}
+			k >>= 1
+		}
+	}
+	return w
+}
+
 func c17SweepRange(lo, hi, stride uint64, strcmp bool, s *c17Stats) {
+	c17SweepGen(lo, hi, stride, 0, 0, false, strcmp, s)
+}
+
+// c17SweepGen: plain mode enumerates lo, lo+stride, … < hi; row mode enumerates value | deposit(k, ^mask) for k in [lo, hi)
+func c17SweepGen(lo, hi, stride uint64, mask, value uint32, rowMode bool, strcmp bool, s *c17Stats) {
 	for w64 := lo; w64 < hi; w64 += stride {
 		w := uint32(w64)
+		if rowMode {
+			w = value | c17Deposit(w64, ^mask)
+		}
 		s.Words++
 		gi, gerr, gstr, gpan := c17Dec(w)
 		ri, rerr, rstr, rpan := c17Ref(w, strcmp)
@@ -317,8 +366,34 @@ func c17SweepRange(lo, hi, stride uint64, strcmp bool, s *c17Stats) {
 func TestVerifC17Sweep(t *testing.T) {
 	segs := strings.Split(os.Getenv("VERIF_C17_SEGS"), ",")
 	strcmp := os.Getenv("VERIF_C17_STRCMP") == "1"
-	type job struct{ lo, hi, stride uint64 }
+	type job struct {
+		lo, hi, stride uint64
+		mask, value    uint32
+		row            bool
+	}
 	var jobs []job
+	// $VERIF_C17_ROWS = "mask:value,...": every word of each listed table row (all combinations of its free bits)
+	for _, rw := range strings.Split(os.Getenv("VERIF_C17_ROWS"), ",") {
+		p := strings.Split(strings.TrimSpace(rw), ":")
+		if len(p) != 2 {
+			continue
+		}
+		m, v := uint32(vh.U64(p[0])), uint32(vh.U64(p[1]))
+		free := 0
+		for b := uint(0); b < 32; b++ {
+			if m&(1<<b) == 0 {
+				free++
+			}
+		}
+		n := uint64(1) << uint(free)
+		for a := uint64(0); a < n; a += 1 << 18 {
+			b := a + 1<<18
+			if b > n {
+				b = n
+			}
+			jobs = append(jobs, job{a, b, 1, m, v, true})
+		}
+	}
 	for _, sg := range segs {
 		p := strings.Split(strings.TrimSpace(sg), ":")
 		if len(p) != 3 {
@@ -335,7 +410,7 @@ func TestVerifC17Sweep(t *testing.T) {
 			if b > hi {
 				b = hi
 			}
-			jobs = append(jobs, job{a, b, st})
+			jobs = append(jobs, job{lo: a, hi: b, stride: st})
 		}
 	}
 	budget, _ := strconv.Atoi(os.Getenv("VERIF_C17_BUDGET_S"))
@@ -364,7 +439,7 @@ func TestVerifC17Sweep(t *testing.T) {
 				if time.Now().After(deadline) {
 					continue // out of budget: the job is skipped and the sweep reported incomplete
 				}
-				c17SweepRange(j.lo, j.hi, j.stride, strcmp, s)
+				c17SweepGen(j.lo, j.hi, j.stride, j.mask, j.value, j.row, strcmp, s)
 				atomic.AddInt64(&done, 1)
 			}
 		}(res[k])
@@ -401,4 +476,78 @@ func TestVerifC17Sweep(t *testing.T) {
 	}
 	defer f.Close()
 	json.NewEncoder(f).Encode(tot)
+}
+
+// TestVerifC17Fresh — the FIRST Decode calls of this process are made by G goroutines at once (spin barrier), each over all
+// words of $VERIF_OPS in a rotated order; afterwards the same words are decoded sequentially.  Every concurrent answer must
+// equal the sequential one and the reference's decodability.  The check runs this test in many fresh child processes.
+func TestVerifC17Fresh(t *testing.T) {
+	var words []uint32
+	for _, op := range vh.ReadOps() {
+		if len(op.Toks) >= 2 && op.Toks[0] == "c17.dec" {
+			words = append(words, uint32(vh.U64(op.Toks[1])))
+		}
+	}
+	g := 32
+	if k, err := strconv.Atoi(os.Getenv("VERIF_C17_G")); err == nil && k > 0 {
+		g = k
+	}
+	if runtime.GOMAXPROCS(0) < 8 {
+		runtime.GOMAXPROCS(8)
+	}
+	type ans struct {
+		ok  bool
+		op  Op
+		pan bool
+	}
+	one := func(w uint32) (a ans) {
+		defer func() {
+			if r := recover(); r != nil {
+				a = ans{pan: true}
+			}
+		}()
+		var b [16]byte
+		binary.LittleEndian.PutUint32(b[:], w)
+		i, err := Decode(b[:])
+		return ans{ok: err == nil, op: i.Op}
+	}
+	res := make([][]ans, g)
+	var ready int32
+	var wg sync.WaitGroup
+	for k := 0; k < g; k++ {
+		res[k] = make([]ans, len(words))
+		wg.Add(1)
+		go func(k int) {
+			defer wg.Done()
+			atomic.AddInt32(&ready, 1)
+			for atomic.LoadInt32(&ready) < int32(g) { // spin until all are running, so the first calls overlap
+				runtime.Gosched()
+			}
+			off := k * len(words) / g
+			for j := range words {
+				i := (j + off) % len(words)
+				res[k][i] = one(words[i])
+			}
+		}(k)
+	}
+	wg.Wait()
+	bad, first := 0, ""
+	for i, w := range words {
+		seq := one(w)
+		_, rerr, _, rpan := c17Ref(w, false)
+		refOK := rerr == nil && rpan == ""
+		for k := 0; k < g; k++ {
+			a := res[k][i]
+			if a != seq || (!c17Allowed(w) && a.ok != refOK) || a.pan {
+				bad++
+				if first == "" {
+					first = fmt.Sprintf("word=%#08x goroutine=%d concurrent={ok:%v op:%s panic:%v} sequential={ok:%v op:%s} reference_ok=%v",
+						w, k, a.ok, a.op, a.pan, seq.ok, seq.op, refOK)
+				}
+			}
+		}
+	}
+	out := vh.OpenOut()
+	defer out.Close()
+	out.Put(0, "fresh goroutines=%d words=%d mismatches=%d %s", g, len(words), bad, first)
 }
